@@ -161,6 +161,16 @@ let cov_delete cmp k t =
   | _ -> ()
 
 (* ---------- replay ---------- *)
+(* third field of a case: "<n>" = full state observed after every n-th op and the last one, or
+   "m:<bits>" = sparse observation, one bit per op (then Size()/Len() too is only printed when observed) *)
+let obs_plan (s : string) (n : int) : (int -> bool) * bool =
+  if String.length s >= 2 && String.sub s 0 2 = "m:" then
+    let m = String.sub s 2 (String.length s - 2) in
+    ((fun i -> i < String.length m && m.[i] = '1'), true)
+  else
+    let stride = max 1 (int_of_string s) in
+    ((fun i -> (i + 1) mod stride = 0 || i = n - 1), false)
+
 let parse_op s = match String.split_on_char ',' s with
   | [o] -> (o, z0, z0)
   | [o; k] -> (o, z_of_string k, z0)
@@ -181,13 +191,13 @@ let replay_line (line : string) =
   match words line with
   | cont :: cmpn :: stride :: ops ->
     let cmp = cmp_of_string cmpn in
-    let stride = max 1 (int_of_string stride) in
     let n = List.length ops in
+    let (observed, sparse) = obs_plan stride n in
     let b = Buffer.create 4096 in
     let s = ref rb_empty in
     List.iteri (fun i o ->
         if i > 0 then Buffer.add_char b '|';
-        let observe = (i + 1) mod stride = 0 || i = n - 1 in
+        let observe = observed i in
         let (op, k, v) = parse_op o in
         let ret, calls, s' =
           (match cont, op with
@@ -208,7 +218,7 @@ let replay_line (line : string) =
              ts_out_str out, ts_op_calls cmp !s sop, s'
            | _ -> "badop", Datatypes.O, !s) in
         s := s';
-        let len = (match cont with
+        let len = if sparse && not observe then "~" else (match cont with
             | "rb" -> (match snd (rb_step cmp s' OSize) with RSize z -> zs z | _ -> "?")
             | "tm" -> (match snd (tm_step cmp s' TLen) with TLenOut z -> zs z | _ -> "?")
             | _ -> "-") in
@@ -231,14 +241,14 @@ let spec_line (line : string) =
   match words line with
   | cont :: cmpn :: stride :: ops ->
     let cmp = cmp_of_string cmpn in
-    let stride = max 1 (int_of_string stride) in
     let n = List.length ops in
+    let (observed, sparse) = obs_plan stride n in
     let b = Buffer.create 4096 in
     let m = ref ([] : AbsMapModel.amap) in
     let st = ref ([] : AbsMapModel.aset) in
     List.iteri (fun i o ->
         if i > 0 then Buffer.add_char b '|';
-        let observe = (i + 1) mod stride = 0 || i = n - 1 in
+        let observe = observed i in
         let (op, k, v) = parse_op o in
         let ret =
           (match cont, op with
@@ -252,7 +262,7 @@ let spec_line (line : string) =
              let sop = (match op with "a" -> SAdd k | "d" -> SDelete k | _ -> SExist k) in
              let (s', out) = AbsMapModel.abs_ts_step cmp !st sop in st := s'; ts_out_str out
            | _ -> "badop") in
-        let len = (match cont with
+        let len = if sparse && not observe then "~" else (match cont with
             | "rb" -> (match snd (AbsMapModel.abs_step cmp !m OSize) with RSize z -> zs z | _ -> "?")
             | "tm" -> (match snd (AbsMapModel.abs_tm_step cmp !m TLen) with TLenOut z -> zs z | _ -> "?")
             | _ -> "-") in
